@@ -104,6 +104,10 @@ def length_sources(ctx, f, expr, depth=0, seen=None):
                 if isinstance(a, (ast.If, ast.While)):
                     feeds.append(a.test)
         return srcs, feeds
+    if isinstance(expr, ast.IfExp):
+        s1, f1 = length_sources(ctx, f, expr.body, depth, seen)
+        s2, f2 = length_sources(ctx, f, expr.orelse, depth, seen)
+        return s1 | s2, f1 + f2 + [expr.test]
     if isinstance(expr, ast.BinOp):
         # e.g. CALENDAR.HOURS_IN_DAY - 1
         s1, f1 = length_sources(ctx, f, expr.left, depth, seen)
